@@ -4,3 +4,4 @@ import ScnrVerif.Model.FindFrom
 import ScnrVerif.Model.Iter
 import ScnrVerif.Model.SpecFind
 import ScnrVerif.Model.SpecIter
+import ScnrVerif.Model.SpecPat
